@@ -485,6 +485,32 @@ class Splicer:
                 if idx >= len(loops):
                     raise SpliceError("lost anchor: %s has %d loops, contract names loop %d" % (key, len(loops), idx))
                 kwi, bri = loops[idx]
+                if lkv.get("r8"):
+                    # R8: `for PAT in EXPR { BODY }` -> `{ let mut it = EXPR; loop INV { let PAT = match it.next() { Some(x) => x, None => break }; BODY } }`
+                    if toks[kwi].text != "for":
+                        raise SpliceError("lost anchor: %s loop %d is not a for loop (R8)" % (key, idx))
+                    k = kwi
+                    while toks[k].text != "in":
+                        k += 1
+                    pat = text[toks[kwi + 1].start:toks[k - 1].end]
+                    itn = lkv["r8"]
+                    edits.append((toks[kwi].start, toks[k].end, "{ let mut %s =" % itn, "R8a", {}))
+                    close = match_close(toks, bri)
+                    ghost_check(slines, "loop %d" % idx)
+                    stripped = [x.strip() for x in slines]
+                    cut = stripped.index("//---pre") if "//---pre" in stripped else len(slines)
+                    hdr_block = "\n".join(slines[:cut])
+                    pre_lines = slines[cut + 1:]
+                    if pre_lines:
+                        ghost_check(pre_lines, "loop-pre %d" % idx)
+                    edits.append((toks[bri].start, toks[bri].start, "; loop\n", "R8b", {}))
+                    edits.append((toks[bri].start, toks[bri].start, hdr_block + "\n", "loop", dict(meta)))
+                    edits.append((toks[bri].start, toks[bri].start, "{\n", "R8c", {}))
+                    edits.append((toks[bri].start, toks[bri].start, "\n".join(pre_lines) + "\n", "ghost", dict(tmpl=(tmpl_file, sline_no + cut + 1))))
+                    edits.append((toks[bri].start, toks[bri].end, "let %s = match %s.next() { Some(vx_x) => vx_x, None => break };" % (pat, itn), "R8c", {}))
+                    edits.append((toks[close].end, toks[close].end, " }", "R8d", {}))
+                    info.rewrites.append("R8@%s:%d" % (os.path.basename(sf.path), sf.line_of(base + toks[kwi].start)))
+                    continue
                 if "iter" in lkv:
                     if toks[kwi].text != "for":
                         raise SpliceError("lost anchor: %s loop %d is not a for loop" % (key, idx))
